@@ -170,7 +170,8 @@ theorem fresh_upgrade_accepted (C : Crypto) (bs : Array Bytes) (hN : bs.size < 2
     ∃ cs', verifyUpgrade C fork ⟨0, bs.size, RefTree.roots C bs, [], sig⟩ none pk cs = .ok (true, cs')
       ∧ cs'.roots = RefTree.roots C bs ∧ cs'.length = bs.size ∧ cs'.fork = fork ∧ cs'.signature = some sig
       ∧ cs'.rnodes = (RefTree.roots C bs).reverse ++ cs.rnodes ∧ cs'.upgraded = true
-      ∧ cs'.origLength = cs.origLength ∧ cs'.origFork = cs.origFork ∧ cs'.ancestors = cs.ancestors := by
+      ∧ cs'.origLength = cs.origLength ∧ cs'.origFork = cs.origFork ∧ cs'.ancestors = cs.ancestors
+      ∧ cs'.hash = some (rootsHash C cs'.roots) := by
   have hrs : RefTree.roots C bs = (rootsStack bs.size).reverse.map (fun p => nodeAt C bs p.1 p.2) := by
     simp [RefTree.roots]
   obtain ⟨st', h1, h2, h3, h4, _, h6, h7, h8, h9, h10⟩ := upgradeRoots_honest C bs hN (rootsStack bs.size).reverse [] (2 * bs.size + 2) 0
@@ -206,7 +207,7 @@ theorem fresh_upgrade_accepted (C : Crypto) (bs : Array Bytes) (hN : bs.size < 2
     | nil => exact absurd hx hrne
     | cons a b => simp
   refine ⟨{ st'.cs with fork := fork, hash := some (rootsHash C st'.cs.roots), signature := some sig }, ?_, ?_, ?_, rfl, rfl,
-    by show st'.cs.rnodes = _; rw [h6, hrs], hupg, h8, h9, h10⟩
+    by show st'.cs.rnodes = _; rw [h6, hrs], hupg, h8, h9, h10, rfl⟩
   · unfold verifyUpgrade
     simp only [andThen, Nat.zero_add]
     rw [h1]
